@@ -8,6 +8,7 @@ import (
 	"strings"
 
 	"github.com/bbva/qed/balloon"
+	qcmd "github.com/bbva/qed/cmd"
 	"github.com/bbva/qed/consensus"
 	"github.com/bbva/qed/crypto/hashing"
 	"github.com/bbva/qed/protocol"
@@ -105,6 +106,16 @@ func backupCmd(out *cq.Out, seed uint64, tier string) {
 				out.Case(fmt.Sprintf("list:%d:%d", t, st), len(live) > 0)
 			}
 		}
+		// make sure the identifiers have a hole below an existing backup (the documented flow: delete the oldest, restore a later one)
+		if len(live) >= 2 && live[0].id == 1 {
+			if err := n.DeleteBackup(uint32(live[0].id)); err != nil {
+				out.Violate("C16:delete-failed", err.Error(), desc)
+			} else {
+				ops = append(ops, fmt.Sprintf("BDelete %d%%N", live[0].id))
+				hist = append(hist, fmt.Sprintf("delete backup %d", live[0].id))
+				live = live[1:]
+			}
+		}
 		// ---- restore every existing backup into a fresh directory and examine the node that opens on it
 		st := n.VStore()
 		for _, b := range live {
@@ -172,6 +183,30 @@ func backupCmd(out *cq.Out, seed uint64, tier string) {
 		out.Sample(map[string]interface{}{"trial": t, "history": hist})
 		cases = append(cases, cq.List(ops))
 		n.Close(true)
+		// the `qed restore` command on the backup directory of the stopped node: by id, for every existing backup
+		for _, b := range live {
+			rdir, _ := os.MkdirTemp(out.Dir, "clirestored")
+			out.Note(desc)
+			hist = append(hist, fmt.Sprintf("qed restore --backup-id %d", b.id))
+			var rerr error
+			if p, msg := cq.Catch(func() { rerr = qcmd.VRunRestore(dir+"/db/backups", uint32(b.id), rdir) }); p || rerr != nil {
+				out.Violate("C16:restore-failed:cli", fmt.Sprintf("`qed restore --backup-id %d` failed although the backup exists: %v %s", b.id, rerr, msg), desc)
+				os.RemoveAll(rdir)
+				continue
+			}
+			if rs, err := rocks.NewRocksDBStore(rdir, 0); err == nil {
+				ch := make(chan *protocol.Snapshot, 64)
+				drain(ch)
+				if rn, err := consensus.VNewFSM(rs, ch); err == nil {
+					if have := int64(rn.VBalloonVersion()); have != b.version+1 {
+						out.Violate("C16:wrong-version-after-restore:cli", fmt.Sprintf("`qed restore --backup-id %d` (recorded version %d) produced a log of %d events", b.id, b.version, have), desc)
+					}
+					rn.VCloseFSM()
+				}
+			}
+			out.Case(fmt.Sprintf("clirestore:%d:%d", t, b.id), true)
+			os.RemoveAll(rdir)
+		}
 		os.RemoveAll(dir)
 	}
 	f, _ := os.Create(out.Dir + "/cases.v")
